@@ -16,6 +16,10 @@ BOUNDED = ("exploration", "bounded stand-in only")
 
 # property -> dict(category, text, note, technique, enabled)
 CHECKS_ALL = {
+    "C03": dict(category="exploration", enabled=True,
+                text="Bounded: exact rational rank (sympy DomainMatrix) of the model matrix with and without rank reduction on fully crossed designs with replicates, for ALL term sets with <=3 terms (4-term sets on most type patterns) over <=3 factors (numeric or categorical with 1..3 levels), EVERY permutation of the terms, intercept present/absent: rank(X_on)==ncol(X_on) and colspace(X_on)==colspace(X_off). Thorough tier adds every built-in contrast, cluster_by, and 4-factor designs (SVD rank).",
+                note="bounded stand-in; the linear-algebra fact linking 'each (numeric set, categorical subset) atom covered once' to independence is argued in DESIGN.md, not mechanised; failures are only reported if they repeat on a second independent data set",
+                technique="runtime contracts on the real functions with exact-arithmetic rank oracles over exhaustively enumerated term sets and orders (bounded stand-in)"),
     "C04": dict(category="exploration", enabled=True,
                 text="Bounded: runtime contract 'a spec replays the recorded encoding row by row' checked on the real library for 87 formula templates over every stateful/stateless built-in (no lag) x 10 kinds of follow-up frames (subsets, duplications, permutations, missing levels, sequences of follow-ups) x 4 replay routes incl. pickle. No deductive obligations yet for this property.",
                 note="bounded stand-in (labelled bounded, never counted as proved); rtol 1e-12 on replayed rows (BLAS may reorder dot products); follow-ups stay inside the training domain",
@@ -28,6 +32,10 @@ CHECKS_ALL = {
                 text="Hybrid. Deductive: ModelSpec.term_indices (loop invariant over prefix sums: contiguous, disjoint, in term order, covering), column_names (concatenation), column_indices, get_column_indices, term_slices, __structure: every obligation discharged by z3 for all structures (unbounded). The same contract text is evaluated on every real call made by a materialization workload (CPython cross-check / counterexample search). Bounded: every accessor compared with a recomputation from the generated matrix on ~5000 formulas x data x outputs; subset() regenerates the parent's columns.",
                 note="assumes Term objects modelled modulo Term.__eq__ (string lookup by printed form is the known finding D13); dict insertion order; the link structure<->actual labels is bounded only",
                 technique="contract-based deductive verification: VCs generated from the real AST (pyvc), discharged by z3/cvc5; runtime-contract bounded stand-in for the end-to-end link"),
+    "C11": dict(category="exploration", enabled=True,
+                text="Bounded (exhaustive for the stated scope): n = 1..12 levels x three label types x every option of Treatment(base)/SAS/Sum/Helmert(reverse,scale)/Diff(backward)/Poly(scores): reduced coding n x (n-1), [1|C] invertible (exact rank), full coding identity, coefficient matrix == exact Fraction inverse, zero column sums, dense == sparse, equality with closed forms written from R/MASS definitions; encode_contrasts(data) == indicator(data) @ C over data with absent levels, nulls and explicit level lists.",
+                note="bounded stand-in for n <= 12 (the closed forms for all n are not yet under deductive contract); tolerances 1e-12 rational entries, 1e-9 inverses, 1e-8 poly",
+                technique="runtime contracts on the real functions against textbook closed forms in exact arithmetic, exhaustive for n <= 12 (bounded stand-in)"),
     "C12": dict(category="exploration", enabled=True,
                 text="Bounded (DESIGN.md section 4 C12: the Cox-de Boor recursion and the cubic-spline linear algebra are out of the verifier's reach): basis_spline judged against an independent Cox-de Boor spec function in exact Fraction arithmetic on the recorded knot vector, fully crossed over degree 0..5 x knots/df (with ties) x bounds x intercept x 5 extrapolation modes on grids containing knots, boundaries, out-of-range points and NaN; cubic splines judged against the cardinal natural/periodic spline from an exact moment solve (identity at the knots, zero centred column means).",
                 note="bounded stand-in, never counted as proved; tolerance 1e-9 absolute on spline values; thorough tier cross-checks the oracles against scipy; four genuine defects found and repaired (fix commits S1-S4 in known_findings.json)",
@@ -36,6 +44,10 @@ CHECKS_ALL = {
                 text="Bounded: scale/center/standardize contracts (zero mean, unit std for ddof, replay of recorded statistics) on all vectors over {-2..2}^n, n<=4 plus seeded vectors of length 2..50 and magnitude 1e-6..1e6; poly judged against exact Fraction Gram-Schmidt; TRANSFORMS entries against the math module and as inverse pairs.",
                 note="bounded stand-in; float tolerance 32*n*eps*kappa (kappa = exact cancellation factor); depends on the exp10 fix commit",
                 technique="runtime contracts on the real functions with exact-arithmetic oracles over enumerated vectors (bounded stand-in)"),
+    "C16": dict(category="exploration", enabled=True,
+                text="Bounded: every binary tree with <=2 operators over {a,b,c,2,0.5} and every `lhs = rhs` with <=1 operator per side (exhaustive), plus seeded specs of 1-3 constraints with <=6 operators, in string/list/dict form, compiled by LinearConstraints.from_spec / ModelSpec.get_linear_constraints and probed at n+1 affinely independent rational points against an independent Fraction evaluator of the spec text: A.x - b == lhs(x) - rhs(x), one row per constraint in order; non-linear specs must be rejected.",
+                note="bounded stand-in; an affine map is fixed by n+1 affinely independent points, so the probe is complete per compiled spec; spec space bounded by operator count",
+                technique="runtime contracts on the real functions against an independent exact evaluator over exhaustively enumerated specs (bounded stand-in)"),
     "C17": dict(category="exploration", enabled=True,
                 text="Bounded: required_variables sufficiency (materialization succeeds on data restricted to exactly the reported columns) and necessity (dropping any one raises FactorEvaluationError) before and after materialization on 19 formula templates x column pairs plus seeded random formulas; name-resolution order data > context > transforms decided exhaustively on a grid where every layer supplies different numbers (the origin is read off the matrix and compared with variables_by_source); '.' expansion against data column order on 3 entry points. The LayeredMapping lookup order itself is proved under C19.",
                 note="bounded stand-in; oracle restrictions from DESIGN.md section 5 (context names are reported until materialization resolves them; Q('name') lookups excluded); known findings D21, D22, N1",
